@@ -173,8 +173,9 @@ MUTANTS = {
         ("peak: signed early return", SG, "        # Simple clipping approach\n        return torch.clamp", "        if torch.max(x) <= self.max_amplitude:\n            return x\n        return torch.clamp", "violation", "PEAK"),
         ("peak: one-sided clamp", SG, "return torch.clamp(x, -self.max_amplitude, self.max_amplitude)", "return torch.clamp(x, max=self.max_amplitude)", "violation", "PEAK"),
         ("papr: final bound above limit", PW, "final_max_amplitude = torch.sqrt(avg_power * self.max_papr * 0.98)", "final_max_amplitude = torch.sqrt(avg_power * self.max_papr * 1.2)", "violation", "PAPR"),
-        ("papr: final clip loses sign", PW, "            result[final_excess_mask] = normalized * final_max_amplitude", "            result[final_excess_mask] = final_max_amplitude", "violation", "PAPR"),
-        ("papr: final clip moved into loop", PW, "        if torch.any(final_excess_mask):\n            # Final hard clipping to ensure we're under the limit\n            # This preserves phase for complex signals and sign for real signals\n            normalized = result[final_excess_mask] / (magnitudes[final_excess_mask] + 1e-8)\n            result[final_excess_mask] = normalized * final_max_amplitude\n", "        for _ in range(0):\n            normalized = result[final_excess_mask] / (magnitudes[final_excess_mask] + 1e-8)\n            result[final_excess_mask] = normalized * final_max_amplitude\n", "violation", "PAPR"),
+        ("papr: final clip loses sign", PW, "            result = torch.where(final_excess_mask, normalized * final_max_amplitude, result)", "            result = torch.where(final_excess_mask, final_max_amplitude, result)", "violation", "PAPR"),
+        ("papr: final clip moved into loop", PW, "        if torch.any(final_excess_mask):\n", "        for _ in range(0):\n", "violation", "PAPR"),
+        ("twin papr: masked-store form of the final clip", PW, "            normalized = result / (magnitudes + 1e-8)\n            result = torch.where(final_excess_mask, normalized * final_max_amplitude, result)", "            normalized = result[final_excess_mask] / (magnitudes[final_excess_mask] + 1e-8)\n            result[final_excess_mask] = normalized * final_max_amplitude", "ok", "PAPR"),
         ("papr: amplitude instead of power in bound", PW, "final_max_amplitude = torch.sqrt(avg_power * self.max_papr * 0.98)", "final_max_amplitude = avg_power * self.max_papr * 0.98", "violation", "PAPR"),
         ("ofdm: mask-free reorder keeps finding only", CU, "    # Add power constraint\n    constraints.append(TotalPowerConstraint(total_power))\n", "    constraints.insert(0, TotalPowerConstraint(total_power))\n", "silent"),
         ("mimo: papr before power", CU, "    # Add power constraint first\n    if uniform_power is not None:\n        constraints.append(PerAntennaPowerConstraint(uniform_power=uniform_power))\n    else:\n        # At this point, total_power must be a float because of the earlier checks\n        assert total_power is not None, \"total_power cannot be None here due to prior validation\"\n        constraints.append(TotalPowerConstraint(total_power=total_power))\n\n    # Add PAPR constraint if specified\n    if max_papr is not None:\n        from .power import PAPRConstraint\n\n        constraints.append(PAPRConstraint(max_papr=max_papr))\n", "    if max_papr is not None:\n        from .power import PAPRConstraint\n\n        constraints.append(PAPRConstraint(max_papr=max_papr))\n    if uniform_power is not None:\n        constraints.append(PeakAmplitudeConstraint(1.0))\n        constraints.append(PerAntennaPowerConstraint(uniform_power=uniform_power))\n    else:\n        constraints.append(TotalPowerConstraint(total_power=total_power))\n", "violation", "COMPOSITE-ORDER"),
